@@ -157,7 +157,7 @@ def literals(draw):
 
 @st.composite
 def seps(draw):
-    return draw(st.one_of(st.none(), st.none(), st.sampled_from([["str", ","], ["str", ";"], ["str", "kw"], ["re", r"[,;]"]])))
+    return draw(st.one_of(st.none(), st.none(), st.sampled_from([["str", ","], ["str", ";"], ["str", "kw"], ["re", r"[,;]"], ["str", ","], ["re", r",?"], ["re", r";*"]])))
 
 
 class _Ctx:
